@@ -18,12 +18,12 @@ const pm = "pkg/machine"
 
 type coreAnchors struct {
 	emitEvents, setActive, processQueue, newTransition, queueMutation, prependMut *ssa.Function
-	recoverFinal, recoverToErr, emitFinal                                           *ssa.Function
-	fClock, fActive, fIsCheck, fDisposing, fDisposed, fMulti, fAuto                 *types.Var
-	fQueue, fQueueTick, fQueueTicksPending, fQueueLen, fQueueLimit                  *types.Var
-	tResult                                                                         types.Type
-	vCanceled, vExecuted, vQueued                                                   int64
-	ok                                                                              bool
+	recoverFinal, recoverToErr, emitFinal                                         *ssa.Function
+	fClock, fActive, fIsCheck, fDisposing, fDisposed, fMulti, fAuto               *types.Var
+	fQueue, fQueueTick, fQueueTicksPending, fQueueLen, fQueueLimit                *types.Var
+	tResult                                                                       types.Type
+	vCanceled, vExecuted, vQueued                                                 int64
+	ok                                                                            bool
 }
 
 func (c *Ctx) core() *coreAnchors {
@@ -297,14 +297,14 @@ var entryPointTable = map[string]struct {
 	limit   bool // must refuse beyond the queue limit
 	why     string
 }{
-	pm + ":Machine.Add":      {true, true, "appended mutation"},
-	pm + ":Machine.Remove":   {true, true, "appended mutation"},
-	pm + ":Machine.Set":      {true, true, "appended mutation"},
-	pm + ":Machine.EvAdd":    {true, true, "appended mutation"},
-	pm + ":Machine.EvRemove": {true, true, "appended mutation"},
-	pm + ":Machine.CanAdd":   {true, false, "prepended check"},
-	pm + ":Machine.CanRemove": {true, false, "prepended check"},
-	pm + ":Machine.Eval":     {false, false, "eval is not a mutation: only the disposed refusal applies"},
+	pm + ":Machine.Add":        {true, true, "appended mutation"},
+	pm + ":Machine.Remove":     {true, true, "appended mutation"},
+	pm + ":Machine.Set":        {true, true, "appended mutation"},
+	pm + ":Machine.EvAdd":      {true, true, "appended mutation"},
+	pm + ":Machine.EvRemove":   {true, true, "appended mutation"},
+	pm + ":Machine.CanAdd":     {true, false, "prepended check"},
+	pm + ":Machine.CanRemove":  {true, false, "prepended check"},
+	pm + ":Machine.Eval":       {false, false, "eval is not a mutation: only the disposed refusal applies"},
 	pm + ":Machine.PrependMut": {false, false, "low-level API: the disposed refusal is inside"},
 }
 
